@@ -165,7 +165,8 @@ class Desync(Exception):
 
 
 class Recorder:
-    """Records (or scripts) every call the code makes to numpy.random.{random,choice,randint,permutation}.
+    """Records (or scripts) every call the code makes to numpy.random.{random,choice,randint,permutation} (and to the pure aliases
+    random_sample / ranf / sample / rand of random).
 
     events: ('rand', shape, vals) | ('choice', n, k, vals) | ('randint', lo, hi, size|None, vals) | ('perm', n, vals)
     """
@@ -275,11 +276,17 @@ class Recorder:
             return vals.copy()
 
         r.random, r.choice, r.randint, r.permutation = random_, choice_, randint_, permutation_
+        # pure aliases of random() in numpy's legacy API draw the same stream: record them as the same event
+        self._alias = {k: getattr(r, k) for k in ("random_sample", "ranf", "sample", "rand") if hasattr(r, k)}
+        for k in self._alias:
+            setattr(r, k, (lambda *dims: random_(dims if dims else None)) if k == "rand" else random_)
         return self
 
     def __exit__(self, *a):
         r = np.random
         r.random, r.choice, r.randint, r.permutation = (self._orig[k] for k in ("random", "choice", "randint", "permutation"))
+        for k, f in getattr(self, "_alias", {}).items():
+            setattr(r, k, f)
         return False
 
 
